@@ -76,7 +76,7 @@ def bead_sample(spec):
                 if mu is None:
                     mu = 0.5            # blank without autofluorescence: bottom of the detector
                 v = mu * math.exp(sigma * z[i, c])
-                if sat == 'brightest' and j == n_pop - 1:
+                if (sat in ('brightest', 'two-brightest') and j == n_pop - 1) or (sat == 'two-brightest' and j == n_pop - 2):
                     v = 10 ** (a0 + 0.5)      # beyond the detector range: piles up at the upper limit
                 if sat == 'dimmest' and j == 0:
                     v = 0.01                  # below the detector range: piles up at the lower limit
@@ -113,12 +113,13 @@ def bead_sample(spec):
     else:
         events, values = [], []
         dtc = 'D' if spec.get('container') == 'double' else 'F'
+        frange = int(spec.get('frange', 262144))        # declared range of the floating-point channels (e.g. 2**24 on some instruments)
         for t, r in enumerate(rows):
-            vals = [float(np.float32(v)) for v in r]
-            vals = [min(v, 262143.0) for v in vals]
+            vals = [float(np.float32(v)) if v < 10 ** (a0 + 0.4) else float(frange) * 2 for v in r]
+            vals = [min(v, float(frange - 1)) for v in vals]
             events.append([fcsgen.float_bits(v, dtc) for v in vals] + [fcsgen.float_bits(float(t), dtc)])
             values.append(vals)
-        lay = dict(datatype=dtc, bits=[32 if dtc == 'F' else 64] * D, ranges=[262144] * D, names=names, pne=['0,0'] * D, events=events,
+        lay = dict(datatype=dtc, bits=[32 if dtc == 'F' else 64] * D, ranges=[frange] * D, names=names, pne=['0,0'] * D, events=events,
                    byteord='1,2,3,4', extra=extra)
     truth = dict(labels=labels, rfi=rfi, mef=mef, fl_names=names[2:2 + nch], values=values, n_pop=n_pop)
     return lay, truth
